@@ -379,7 +379,7 @@ Section Rephase.
   Hypothesis F_stable : forall s s', os_id s = os_id s' -> os_phases s = os_phases s' -> F s = F s'.
 
   Definition R (s : oset) : oset := set_phases s (F s).
-  Definition Rw (sw : sworld) : sworld := {| sw_w := sw_w sw; sw_sets := map R (sw_sets sw) |}.
+  Definition Rw (sw : sworld) : sworld := {| sw_w := sw_w sw; sw_sets := map R (sw_sets sw); sw_phases := sw_phases sw; sw_nss := sw_nss sw |}.
 
   Lemma set_phases_same m : set_phases m (os_phases m) = m.
   Proof. now destruct m. Qed.
@@ -819,7 +819,7 @@ Definition wit_set (deleting : bool) (life : lifecycle) : oset :=
      os_revision := 1; os_conds := []; os_ctrlof := [{| k_gk := 1; k_ns := 1; k_name := 1 |}]; os_remotes := [] |}.
 Definition wit_world (deleting : bool) (life : lifecycle) : xworld :=
   {| xw_sw := {| sw_w := {| w_store := [({| k_gk := 1; k_ns := 1; k_name := 1 |}, wit_obj)]; w_rv := 50; w_uid := 60 |};
-                 sw_sets := [wit_set deleting life] |};
+                 sw_sets := [wit_set deleting life]; sw_phases := []; sw_nss := [] |};
      xw_refs := [(1, 1, 10, [[7]])];
      xw_sl := {| xs_store := [((1, 7), {| sl_objects := [wit_pobj]; sl_owners := [plain_ref wit_id]; sl_rv := 3 |})];
                  xs_rv := 4 |} |}.
